@@ -187,6 +187,8 @@ class Ctx:
                 self.fail("proof", "leanchecker " + m, (so + se)[-1500:])
 
     def driver(self):
+        from . import genpreds
+        genpreds.write()
         rc, out, dt = self.lake_build(["svdriver"])
         self.cov["stages"]["driver_build"] = round(dt, 1)
         if rc != 0:
